@@ -651,6 +651,110 @@ def normalise_loops(stmts: list[ast.stmt]) -> list[ast.stmt]:
     return rec(stmts)
 
 
+def multimap_idioms(stmts: list[ast.stmt]) -> list[ast.stmt]:
+    """three spellings of "append v to the list filed under k":
+         if k in d: d[k].append(v)  else: d[k] = [v]          d = defaultdict(list) .. d[k].append(v) .. dict(d)
+         if k not in d: d[k] = []   ;  d[k].append(v)
+       all become  d.setdefault(k, []).append(v)  on a plain dict (a local defaultdict(list) that is only indexed, tested and copied)"""
+    stmts = list(stmts)
+
+    def app(d, k, v):
+        return ast.Expr(ast.Call(func=ast.Attribute(value=ast.Call(func=ast.Attribute(value=d, attr="setdefault", ctx=ast.Load()),
+                                                                  args=[k, ast.List(elts=[], ctx=ast.Load())], keywords=[]), attr="append", ctx=ast.Load()),
+                                 args=[v], keywords=[]))
+
+    def is_append(x):
+        """(d, k, v) when x is d[k].append(v)"""
+        if isinstance(x, ast.Expr) and isinstance(x.value, ast.Call) and isinstance(x.value.func, ast.Attribute) and x.value.func.attr == "append" \
+                and len(x.value.args) == 1 and not x.value.keywords and isinstance(x.value.func.value, ast.Subscript):
+            return x.value.func.value.value, x.value.func.value.slice, x.value.args[0]
+        return None
+
+    def is_init(x, single):
+        """(d, k, [v]) when x is d[k] = [v] (single) / d[k] = [] (not single)"""
+        if isinstance(x, ast.Assign) and len(x.targets) == 1 and isinstance(x.targets[0], ast.Subscript) and isinstance(x.value, ast.List) \
+                and len(x.value.elts) == (1 if single else 0):
+            return x.targets[0].value, x.targets[0].slice, (x.value.elts[0] if single else None)
+        return None
+
+    def member(t):
+        """(k, d, positive) when t is `k in d` / `k not in d`"""
+        if isinstance(t, ast.Compare) and len(t.ops) == 1 and isinstance(t.ops[0], (ast.In, ast.NotIn)):
+            return t.left, t.comparators[0], isinstance(t.ops[0], ast.In)
+        if isinstance(t, ast.UnaryOp) and isinstance(t.op, ast.Not):
+            m = member(t.operand)
+            return (m[0], m[1], not m[2]) if m else None
+        return None
+
+    def block(b):
+        out = []
+        i = 0
+        while i < len(b):
+            x = b[i]
+            for fld in ("body", "orelse", "finalbody"):
+                bb = getattr(x, fld, None)
+                if isinstance(bb, list) and bb and isinstance(bb[0], ast.stmt) and not isinstance(x, (ast.FunctionDef, ast.AsyncFunctionDef, ast.ClassDef)):
+                    setattr(x, fld, block(bb))
+            if isinstance(x, ast.Try):
+                for h in x.handlers:
+                    h.body = block(h.body)
+            if isinstance(x, ast.If):
+                m = member(x.test)
+                if m is not None:
+                    k, d, pos = m
+                    yes, no = (x.body, x.orelse) if pos else (x.orelse, x.body)
+                    yes = [y for y in yes if not isinstance(y, ast.Pass)]
+                    no = [y for y in no if not isinstance(y, ast.Pass)]
+                    # if k in d: d[k].append(v) else: d[k] = [v]
+                    if len(yes) == 1 and len(no) == 1 and is_append(yes[0]) and is_init(no[0], True):
+                        a, n_ = is_append(yes[0]), is_init(no[0], True)
+                        if u(a[0]) == u(n_[0]) == u(d) and u(a[1]) == u(n_[1]) == u(k) and u(a[2]) == u(n_[2]):
+                            new = app(d, k, a[2])
+                            ast.copy_location(new, x)
+                            ast.fix_missing_locations(new)
+                            out.append(new)
+                            i += 1
+                            continue
+                    # if k not in d: d[k] = []   followed by   d[k].append(v)
+                    if not yes and len(no) == 1 and is_init(no[0], False) and i + 1 < len(b) and is_append(b[i + 1]):
+                        n_, a = is_init(no[0], False), is_append(b[i + 1])
+                        if u(a[0]) == u(n_[0]) == u(d) and u(a[1]) == u(n_[1]) == u(k):
+                            new = app(d, k, a[2])
+                            ast.copy_location(new, x)
+                            ast.fix_missing_locations(new)
+                            out.append(new)
+                            i += 2
+                            continue
+            out.append(x)
+            i += 1
+        return out
+    stmts = block(stmts)
+    # local defaultdict(list): only d[k].append(v), reads, `in` tests and dict(d) copies
+    for s_ in list(stmts):
+        if isinstance(s_, ast.Assign) and len(s_.targets) == 1 and isinstance(s_.targets[0], ast.Name) and isinstance(s_.value, ast.Call) \
+                and u(s_.value.func).split(".")[-1] == "defaultdict" and len(s_.value.args) == 1 and u(s_.value.args[0]) == "list" and not s_.value.keywords:
+            d = s_.targets[0].id
+            if sum(1 for x in stmts for n in ast.walk(x) if isinstance(n, ast.Name) and n.id == d and not isinstance(n.ctx, ast.Load)) != 1:
+                continue
+
+            class R(ast.NodeTransformer):
+                def visit_Expr(self, node):
+                    a = is_append(node)
+                    if a and isinstance(a[0], ast.Name) and a[0].id == d:
+                        return ast.copy_location(app(a[0], a[1], self.visit(a[2])), node)
+                    return self.generic_visit(node)
+
+                def visit_Call(self, node):
+                    self.generic_visit(node)
+                    if isinstance(node.func, ast.Name) and node.func.id == "dict" and len(node.args) == 1 and not node.keywords \
+                            and isinstance(node.args[0], ast.Name) and node.args[0].id == d:
+                        return node.args[0]
+                    return node
+            s_.value = ast.copy_location(ast.Dict(keys=[], values=[]), s_.value)
+            stmts = [ast.fix_missing_locations(R().visit(x)) for x in stmts]
+    return stmts
+
+
 def rename_param_rebinds(stmts: list[ast.stmt]) -> list[ast.stmt]:
     """x = f(x) at the top level of a function body, x assigned nowhere else (so the x read on the right is the parameter):
     the new value gets its own name x_1 in that statement and everything after it.  `config = config or Default()` and
